@@ -131,3 +131,36 @@ func fromRunes(l []rune) []int {
 	}
 	return out
 }
+
+// MutateStyle changes exactly one field of a style minimally (one attribute bit, the underline style, one colour, the URL
+// under the same id, or the id under the same URL): dirty tracking and redraw shortcuts that compare styles field by field
+// only go wrong on such near-identical styles.
+func MutateStyle(r *h.Rand, f StyleF) StyleF {
+	switch r.Intn(7) {
+	case 0:
+		f.Attrs ^= 1 << uint(r.Intn(7))
+	case 1:
+		f.UlStyle = (f.UlStyle + 1 + r.Intn(4)) % 6
+	case 2:
+		f.Fg = h.Pick(r, genColors)
+	case 3:
+		f.Bg = h.Pick(r, genColors)
+	case 4:
+		f.UlColor = h.Pick(r, genColors)
+	case 5: // same id, another URL
+		if f.Url == "" {
+			f.Url, f.UrlId = "http://a", "id=1"
+		} else {
+			f.Url += "/x"
+			if f.UrlId == "" {
+				f.UrlId = "id=1"
+			}
+		}
+	default: // same URL, another id
+		if f.Url == "" {
+			f.Url = "http://a"
+		}
+		f.UrlId = "id=" + h.Pick(r, []string{"1", "zz", "q"})
+	}
+	return f
+}
